@@ -99,6 +99,8 @@ class NumpyProxy(types.ModuleType):
         self.inv_records = []
         self.polyfit_impl = None
         self.extra = {}
+        self.close_mode = "solver"   # 'solver' | 'structural' (cut: close iff structurally identical)
+        self.structural_cuts = 0
 
     def __getattr__(self, name):
         if name in self.extra:
@@ -174,6 +176,9 @@ class NumpyProxy(types.ModuleType):
             conds.append(c)
         if not conds:
             return True
+        if self.close_mode == "structural":
+            self.structural_cuts += 1
+            return False
         return bool(_decide_cond(X.cond_and(*conds)))
 
     # -- eigen-decomposition ---------------------------------------------------
